@@ -846,6 +846,7 @@ static size_t safec_etoa(out_fct_type out, const char *funcname, char *buffer,
     } conv;
     int exp2, expval;
     unsigned int minwidth, fwidth;
+    double mant;
     bool negative;
 
     // check for NaN and special values
@@ -898,30 +899,50 @@ static size_t safec_etoa(out_fct_type out, const char *funcname, char *buffer,
         conv.F = 1.0;
     }
 
+    // in "%g" mode, "prec" is the number of *significant figures* not
+    // decimals, and 0 counts as 1
+    if ((flags & FLAGS_ADAPT_EXP) && prec == 0U) {
+        prec = 1U;
+    }
+
+    // rescale the float value
+    mant = value;
+    if (expval && conv.F != 0.0) {
+        mant = value / conv.F;
+    }
+    // the mantissa may round up to 10
+    {
+        const unsigned int eprec =
+            (flags & FLAGS_ADAPT_EXP) ? prec - 1U : prec;
+        int whole;
+        unsigned long frac;
+        safec_fround(mant, eprec > 9U ? 9U : eprec, &whole, &frac);
+        if (whole >= 10) {
+            mant /= 10;
+            expval++;
+        }
+    }
+
     // the exponent format is "%+03d" and largest value is "307", so set aside
     // 4-5 characters
     minwidth = ((expval < 100) && (expval > -100)) ? 4U : 5U;
 
-    // in "%g" mode, "prec" is the number of *significant figures* not decimals
     if (flags & FLAGS_ADAPT_EXP) {
         // do we want to fall-back to "%f" mode?
-        if ((flags & FLAGS_HASH) || (value == 0.0) ||
-            ((value >= 1e-4) && (value < 1e6))) {
-            if ((int)prec > expval) {
-                prec = (unsigned)((int)prec - expval - 1);
-            } else {
-                prec = 0;
-            }
+        if ((expval >= -4) && (expval < (int)prec)) {
+            prec = (unsigned)((int)prec - expval - 1);
             flags |= FLAGS_PRECISION; // make sure safec_ftoa respects precision
             // no characters in exponent
             minwidth = 0U;
             expval = 0;
         } else {
             // we use one sigfig for the whole part
-            if ((prec > 0) && (flags & FLAGS_PRECISION)) {
-                --prec;
-            }
+            --prec;
+            flags |= FLAGS_PRECISION;
+            value = mant;
         }
+    } else {
+        value = mant;
     }
 
     // will everything fit?
@@ -937,11 +958,6 @@ static size_t safec_etoa(out_fct_type out, const char *funcname, char *buffer,
     if ((flags & FLAGS_LEFT) && minwidth) {
         // if we're padding on the right, DON'T pad the floating part
         fwidth = 0U;
-    }
-
-    // rescale the float value
-    if (expval && conv.F != 0.0) {
-        value /= conv.F;
     }
 
     // output the floating part
